@@ -13,8 +13,8 @@ P = {
     "C01": dict(level="other", tech="bounded SMT over symbolic columns (z3): the real grouping / aggregation / join source executed by rulesym+colsym for all N! row orders, N<=3/4 (CrossHair as second engine at N=3)",
                 text="For N<=3 (quick) / 4 (thorough) rows and all row permutations the real grouping, aggregation, pointer-sum and join code is executed symbolically (rulesym/colsym + z3 on groupings.py, aggregation_numpy, shared; CrossHair as a second engine at N=3) and proved order-equivariant; the dtype-from-first-row effect of numpy.vectorize is decided per rule by a typed-path z3 query. Bounded; pandas-level result assembly is outside.",
                 ref="DESIGN.md#c01"),
-    "C02": dict(level="other", tech="bounded SMT two-population harness (A alone vs A++B) on the real column code (rulesym/colsym + z3; CrossHair second engine)",
-                text="A (<=2 rows) alone vs A++B (B<=2 rows, disjoint ids): real grouping/aggregation/join code symbolically executed; results on A equal / induce the same partition, no derived id shared across populations; relabelling with injective sign-preserving maps. Bounded.",
+    "C02": dict(level="other", tech="bounded SMT two-population harness (A alone vs A++B) on the real column code (rulesym/colsym + z3 over reals, plus a Float64 round-to-nearest z3 re-check of rows whose term mentions a value of B; CrossHair second engine)",
+                text="A (<=2 rows) alone vs A++B (B<=2 rows, disjoint ids): real grouping/aggregation/join code symbolically executed; results on A equal / induce the same partition, no derived id shared across populations; relabelling with injective sign-preserving maps. Where the z3 term of a row of A mentions a value of B at all, the same claim is decided bit for bit over Float64 (ids enumerated, values symbolic, 0.01<=|v|<=1e9) and a model is replayed on the real function. Bounded.",
                 ref="DESIGN.md#c02"),
     "C03": dict(level="other", tech="typed symbolic execution of every active rule (z3): dynamic return type per path vs numpy.vectorize otypes-from-first-row",
                 text="Every scalar rule is executed symbolically with a dynamic Python type per path; z3 decides whether two valid rows exist such that the dtype inferred from the first row cannot hold the second row's value (truncation/coercion), and whether a path returns a wider type than declared. The value equation is proved through the wrapper production really calls, and the production column's dtype must be of the declared kind wherever it is determinate. Each model is replayed through the real compute_taxes_and_transfers in both row orders.",
@@ -23,7 +23,7 @@ P = {
                 text="For pairs of target sets the real loader builds both graphs; for every common node z3 proves equality of its symbolic definition (same callable semantics, same parents) for all parent values; by induction over the DAG values agree for all data. Result assembly/debug are outside the solver claim.",
                 ref="DESIGN.md#c04"),
     "C05": dict(level="other", tech="symbolic node-definition equivalence (z3) under override by a data column",
-                text="With node n supplied as data, every other node's definition is proved equal (z3) to its definition without the override, under the hypothesis n = def(n)(parents) where provenance changes (time-unit siblings).",
+                text="With node n supplied as data, every other node's definition is proved equal (z3) to its definition without the override, under the hypothesis n = def(n)(parents) where provenance changes (time-unit siblings). Integration witnesses through the real API (not the deciding step): round trips of sampled nodes, and every overridable rounded rule supplied with on-grid amounts - one a z3 Float64 model on which the rounding formula is not idempotent - must reach a probe consumer bit for bit.",
                 ref="DESIGN.md#c05"),
     "C07": dict(level="other", tech="concolic date exploration of the real loader + z3 coverage query over the calendar + independent reference resolver",
                 text="The real set_up_policy_environment is run under a recording date; z3 proves the recorded regions cover every calendar day of the window; per region the environment is compared with an independent resolver of the YAML dialect and the active function set with the registered validity intervals.",
@@ -32,7 +32,7 @@ P = {
                 text="Per date class >= 2015 the real DAG is built, roots are compared with the documented inputs, and every reachable rule is executed symbolically with havoc'd parents; each error guard must be unsat under the valid-population predicate, first locally, then on the single-person cone, then on household templates (up to 2 adults + 10 children). sat guards are replayed through the real API.",
                 ref="DESIGN.md#c08"),
     "C09": dict(level="translation_validation", tech="translation validation: rulesym executes original and rewritten AST, z3 decides inequivalence; bounded grammar enumeration of programs",
-                text="For every internal function (once per parameter variant inside its validity period) and every generated program of the documented restricted grammar (depth<=2/3) the real _make_vectorizable_ast output is executed symbolically on arrays of length 2 and compared position-wise with the original on scalars; z3 refutes any differing input unless the rewrite fails loudly. Models are replayed on the real make_vectorizable output.",
+                text="For every internal function (once per parameter variant inside its validity period) and every generated program of the documented restricted grammar (depth<=2/3, incl. chained comparisons with every operator pair) the real _make_vectorizable_ast output is executed symbolically on arrays of length 2 and compared position-wise with the original on scalars; z3 refutes any differing input unless the rewrite fails loudly. Models are replayed on the real make_vectorizable output.",
                 ref="DESIGN.md#c09"),
     "C10": dict(level="other", tech="symbolic execution of the real rounding wrapper vs raw-YAML spec (z3, integer grid reasoning)",
                 text="For every rule with a rounding key x date class the real wrapper from _add_rounding_to_functions is executed on a free real and z3 proves grid membership, direction, |error| < base and offset against the spec read independently from YAML (wrappers taken from per-rule calls and from one production-shaped call over all functions, both orders); derived time-unit/aggregate nodes are proved not to round again.",
@@ -44,7 +44,7 @@ P = {
                 text="The real *_id_numpy functions are executed symbolically (rulesym: Python dict/list code through guarded containers; z3 decides) on symbolic pointer structures and must satisfy the pairwise obligations of the unit definitions, nesting and id non-collision for every row order, one obligation per order; encoder validated against the real function on random structures each run; every model replayed. Bounded N<=3 quick / 4 thorough (eg/sn/bg/wthh also 5). CrossHair confirms the non-fg conditions independently at N=3.",
                 ref="DESIGN.md#c12"),
     "C13": dict(level="other", tech="symbolic execution of the 12 converters (exact reals + (1+delta) FP model) and of the loader wiring of time-unit siblings (z3)",
-                text="z3 proves each real converter equals multiplication by the documented factor ratio, round trips within 5*2^-53 relative under the rounding-error model, and for every time-suffixed name that the real loader derives, sibling = source x factor and commutation with group sums (N<=3).",
+                text="z3 proves each real converter equals multiplication by the documented factor ratio, round trips within 5*2^-53 relative under the rounding-error model, and for every time-suffixed name that the real loader derives, sibling = source x factor (on float and on int64 columns) and commutation with group sums (N<=3).",
                 ref="DESIGN.md#c13"),
     "C15": dict(level="other", tech="two-copy symbolic execution per group-suffixed rule with inductively derived group-constancy facts (z3)",
                 text="Inductive pass over the real DAG per date class: a node is group-constant iff z3 refutes two members of one group, sharing all group-constant arguments and differing in all others, getting different values. Failing queries are replayed on the real API.",
